@@ -15,7 +15,7 @@ RULE = (
     "a 2x2 (thorough: also 2x3) block layout, each in ascending and reversed input order, x data = distinct powers of two per point "
     "and component (1..3 components, so a reduced value identifies its member set) x weights {none, distinct per point and component} "
     "x reduction {mean, median, sum, min, max; weighted: np.average, weighted sum} x {spacing, shape} x region {given, inferred via "
-    "two pin points} x center_coordinates x drop_coords (extra coordinate = 10 x point id) x input 1-D / 2-D C-ordered / 2-D Fortran-ordered or transposed view. quick crosses the full "
+    "two pin points} x center_coordinates x drop_coords (extra coordinate = 10 x point id) x input 1-D / 2-D C-ordered / 2-D Fortran-ordered or transposed view / mixed layouts / integer-dtype coordinates (both or easting only). quick crosses the full "
     "data-path axis with the default coordinate path and the full coordinate-path axis with two data paths; thorough crosses "
     "everything for the 2x2 layout. Non-trivial: a block with >= 2 members and >= 2 occupied blocks."
 )
@@ -36,7 +36,7 @@ def _configs(tier, full):
              [dict(red=r, ncomp=c, w=True) for r in RED_W for c in (1, 2, 3)]
     b_axis = [dict(block=bk, region=rg, center=ce, drop=dr, form=fm)
               for bk in ("spacing", "shape") for rg in ("given", "inferred") for ce in (False, True)
-              for dr in (True, False) for fm in ("1d", "2d", "2dF")]
+              for dr in (True, False) for fm in ("1d", "2d", "2dF", "mixed", "int", "int_e")]
     b0 = dict(block="spacing", region="given", center=False, drop=True, form="1d")
     if full:
         for a in a_axis:
@@ -48,6 +48,8 @@ def _configs(tier, full):
     for b in b_axis:
         if b == b0:
             continue
+        if b["form"] in ("mixed", "int", "int_e") and (b["block"] != "spacing" or not b["drop"]):
+            continue   # quick: the representation forms are crossed with region and centre options only
         yield dict(dict(red="mean", ncomp=1, w=False), **b)
         yield dict(dict(red="average", ncomp=2, w=True), **b)
 
@@ -120,23 +122,41 @@ def run(case, rec):
     shp = (npts,)
     if form in ("2d",):
         shp = (2, npts // 2) if npts % 2 == 0 and npts >= 2 else (1, npts)
-    if form == "2dF":
+    scale = 1.0
+    if form in ("int", "int_e"):
+        # integer-valued coordinates (layout scaled by 4 so that the sites are integers) with an integer dtype for both
+        # coordinates or for the easting only
+        scale = 4.0
+        e, n = e * 4.0, n * 4.0
+    if form in ("2dF", "mixed"):
         # same element sequence in C (row-major) reading order, but Fortran memory layout / a transposed view
         shp = (2, npts // 2) if npts % 2 == 0 and npts >= 2 else (1, npts)
         rs = lambda a: np.asfortranarray(a.reshape(shp)) if npts % 4 else np.ascontiguousarray(a.reshape(shp).T).T
     else:
         rs = lambda a: a.reshape(shp)
     coords = (rs(e), rs(n), rs(extra))
+    if form == "mixed":
+        # arrays that do not share one memory layout: C-ordered coordinates, Fortran-ordered data, transposed-view weights
+        shp = (2, npts // 2) if npts % 2 == 0 and npts >= 2 else (1, npts)
+        coords = tuple(np.ascontiguousarray(a.reshape(shp)) for a in (e, n, extra))
+    if form == "int":
+        coords = (e.astype(np.int64), n.astype(np.int64), extra)
+    if form == "int_e":
+        coords = (e.astype(np.int64), n, extra)
     kw = dict(center_coordinates=case["center"], drop_coords=case["drop"])
     if case["block"] == "spacing":
-        kw["spacing"] = 1.0
+        kw["spacing"] = 1.0 * scale
     else:
         kw["shape"] = (nby, nbx)
     if case["region"] == "given":
-        kw["region"] = (0.0, float(nbx), 0.0, float(nby))
+        kw["region"] = (0.0, float(nbx) * scale, 0.0, float(nby) * scale)
     red = _reduction(case["red"])
     d_arg = rs(data[0]) if ncomp == 1 else tuple(rs(d) for d in data)
     w_arg = None if wts is None else (rs(wts[0]) if ncomp == 1 else tuple(rs(w) for w in wts))
+    if form == "mixed" and wts is not None:
+        shp_ = coords[0].shape
+        tv = lambda a: np.ascontiguousarray(a.reshape(shp_).T).T
+        w_arg = tv(wts[0]) if ncomp == 1 else tuple(tv(w) for w in wts)
     before = [a.tobytes() for a in (e, n, extra)] + [d.tobytes() for d in data] + ([w.tobytes() for w in wts] if wts else [])
     reducer = call(rec, vd.BlockReduce, red, **kw)
     if raised(reducer):
@@ -170,8 +190,8 @@ def run(case, rec):
                       % (b, c, float(gdata[c][k]), members, float(want)))
         if case["center"]:
             bx, by = b % nbx, b // nbx
-            rec.check(float(gcoords[0][k]) == bx + 0.5 and float(gcoords[1][k]) == by + 0.5,
-                      "block %d: centre coordinates (%r, %r) != (%r, %r)" % (b, gcoords[0][k], gcoords[1][k], bx + 0.5, by + 0.5))
+            rec.check(float(gcoords[0][k]) == (bx + 0.5) * scale and float(gcoords[1][k]) == (by + 0.5) * scale,
+                      "block %d: centre coordinates (%r, %r) != (%r, %r)" % (b, gcoords[0][k], gcoords[1][k], (bx + 0.5) * scale, (by + 0.5) * scale))
         else:
             we = B.reduce_exact(cred, [e[i] for i in members])
             wn = B.reduce_exact(cred, [n[i] for i in members])
